@@ -523,6 +523,7 @@ void tokenize_cleanup()
 
          // handle 'static if' and merge the tokens
          if (  pc->Is(CT_IF)
+            && prev->IsNot(CT_IGNORED)  // a line of a disabled region
             && prev->IsString("static"))
          {
             // delete PREV and merge with IF
@@ -755,6 +756,7 @@ void tokenize_cleanup()
             && next->IsString("SQL", false))
          || (  (*pc->GetStr().c_str() == '$')
             && pc->IsNot(CT_SQL_WORD)
+            && pc->IsNot(CT_IGNORED)
                /* but avoid breaking tokenization for C# 6 interpolated strings. */
             && (  !language_is_set(lang_flag_e::LANG_CS)
                || (  pc->Is(CT_STRING)
